@@ -89,6 +89,7 @@ def tasks(tier, seed):
                     "caps": {"max_seconds": 300, "solver_timeout_ms": 120000}})
     for b in [4, 8] if tier == "quick" else [4, 6, 8, 12]:
         out.append({"fn": "sar_noise", "kwargs": {"bits": b}, "label": f"sar_noise/zero_noise/bits={b}"})
+        out.append({"fn": "sar_models_equiv", "kwargs": {"bits": b}, "label": f"sar_noise/models/bits={b}", "caps": {"max_seconds": 300, "solver_timeout_ms": 60000}})
     for b, vm in ([(4, 3.3), (6, 0.7)] if tier == "quick" else [(4, 3.3), (6, 0.7), (8, 1.8), (10, 0.2048), (12, 3.3), (8, 5.0)]):
         out.append({"fn": "sar_noise_fp", "kwargs": {"bits": b, "vmax": vm}, "label": f"sar_noise/zero_noise/fp,bits={b},vmax={vm}", "solver": "cvc5", "cross_check": False,
                     "caps": {"max_seconds": 400, "solver_timeout_ms": 120000}})
@@ -391,6 +392,35 @@ def sar_noise(bits, sigdtype="float64"):
         vx.prove(f"C16/sar_noise/codes_stored_exactly/{lab}", vx.all_of(ok), numbers_stored_in_narrow_floats=len(events))
 
 
+def sar_models_equiv(bits):
+    """The two SAR converter MODELS on detectors with the same signal and the same (symbolic) voltage range, lower bound of either
+    sign: with all strengths and noises zero the noisy model stores exactly the image of sar_adc."""
+    mods = _mods()
+    sar, sarn = mods[1], mods[2]
+    x, y, vmin, vmax = vx.real("x"), vx.real("y"), vx.real("vmin"), vx.real("vmax")
+    vx.assume((vmin < vmax) & (vmax > 0), "voltage range with min < max, max > 0")
+    images = []
+    with Patch() as p:
+        p.numpy(ADC_MODS[1], ADC_MODS[2], ADC_MODS[3], "pyxel.data_structure.array", "pyxel.data_structure.image", "pyxel.data_structure.signal")
+        import types
+
+        shim = types.ModuleType("symnp_zero_noise")
+        shim.__getattr__ = lambda name: _ZeroNoiseRandom if name == "random" else getattr(symnp, name)  # type: ignore[attr-defined]
+        p.attr(sarn, "np", shim, "np.random.normal(loc, 0) == loc")
+        for which in ("plain", "noisy"):
+            det = make_ccd(1, 2)
+            det.characteristics._adc_bit_resolution = bits
+            det.characteristics._adc_voltage_range = (vmin, vmax)
+            det.signal.array = symnp.SymArray.from_elems([x, y], (1, 2), np.float64)
+            if which == "plain":
+                sar.sar_adc(det)
+            else:
+                sarn.sar_adc_with_noise(det, strengths=[0.0] * bits, noises=[0.0] * bits)
+            images.append(det.image.array)
+    a, b = images
+    vx.prove(f"C16/sar_noise/models_zero_noise_equiv/bits={bits}", vx.all_of([u == v for u, v in zip(a.elems(), b.elems())]) & (a.dtype == b.dtype))
+
+
 def sar_noise_fp(bits, vmax, sigdtype="float64"):
     """Exact IEEE-754: the noisy variant with all strengths and noises zero produces the very same code as sar_adc, for every
     finite double (the statement says "exactly" - rounding of intermediate results is part of it)."""
@@ -479,6 +509,21 @@ def replay(oid, kwargs, model, data):
         if clause == "zero":
             return (x <= 0 and cx != 0), det
         return False, det
+    if fn == "sar_models_equiv":
+        from pyxel.models.readout_electronics import sar_adc, sar_adc_with_noise
+
+        bits = kwargs["bits"]
+        x, y, vmin, vmax = _f(model.get("x")), _f(model.get("y")), _f(model.get("vmin")), _f(model.get("vmax"))
+        out = []
+        for f, kw in ((sar_adc, {}), (sar_adc_with_noise, {"strengths": [0.0] * bits, "noises": [0.0] * bits})):
+            det = make_ccd(1, 2)
+            det.characteristics._adc_bit_resolution = bits
+            det.characteristics._adc_voltage_range = (vmin, vmax)
+            det.signal.array = np.array([[x, y]], dtype=float)
+            f(det, **kw)
+            out.append(det.image.array)
+        same = out[0].dtype == out[1].dtype and np.array_equal(out[0], out[1])
+        return (not same), {"voltage_range": [vmin, vmax], "signal": [x, y], "sar_adc": out[0].tolist(), "sar_adc_with_noise_zero_noise": out[1].tolist()}
     if fn == "model_data_type":
         from pyxel.models.readout_electronics import simple_adc
 
